@@ -348,6 +348,28 @@ def search(ctx):
                                                 break
                                     except IntegratorError:
                                         ctx.count("search:step:raised")
+    # the ambient metric is a public attribute (metric adapters re-assign it between stages): momenta sampled afterwards lie in the cotangent space for the NEW metric,
+    # also on a state that was used under the old one
+    import mici.matrices as mm
+    for skind in ("plain", "gaussian"):
+        cset = csets["sphere+parabolic"]
+        sysm = make_system(skind, cset, None, False)
+        q0 = on_manifold(cset[0], cset[1], rng)
+        used = ChainState(pos=q0.copy(), mom=None, dir=1)
+        used.mom = sysm.sample_momentum(used, rng)          # caches everything that depends on the position
+        ev = np.exp(0.8 * rng.standard_normal(D))
+        sysm.metric = mm.PositiveDiagonalMatrix(ev)
+        for label, st in (("a state used before the metric was re-assigned", used), ("a fresh state", ChainState(pos=q0.copy(), mom=None, dir=1))):
+            st.mom = sysm.sample_momentum(st, rng)
+            Jq = np.asarray(sysm.jacob_constr(st))
+            ce = np.abs(Jq @ (st.mom / ev)).max() / max(1.0, np.abs(Jq).max() * np.abs(st.mom).max())
+            ctx.case(("metric-reassigned", skind, label))
+            ctx.count("search:sample_momentum:metric_reassigned")
+            if not ce <= 1e-10:
+                key = "cotangent:sample_momentum:stale_gram_after_metric_reassignment" if st is used else f"cotangent:sample_momentum:metric_reassigned:{skind}"
+                bad += not ctx.is_known(key)
+                ctx.fail(key, f"{type(sysm).__name__}: after re-assigning system.metric, sample_momentum on {label} gives |J M_new^-1 p| = {ce:.2e} (relative): "
+                         f"the Gram matrix cached in the state under the old metric is re-used", dict(system=skind, pos=q0.tolist(), new_metric_diagonal=ev.tolist()))
     # a constraint function with a restricted domain (raises ValueError off it): a failed solve is a ConvergenceError, nothing else
     import math
 
